@@ -322,8 +322,8 @@ def check(run: Run) -> None:
     # ---- L4
     n4 = 0
     for meth in [s_ for s_ in classes[0].body if isinstance(s_, ast.FunctionDef)]:
-        if "exp" not in [a.arg for a in meth.args.args]:
-            continue
+        if "exp" not in [a.arg for a in meth.args.args] or not meth.name.startswith("_print"):
+            continue  # SymPy hands the outer exponent to the _print_<Class> methods (from _print_Pow); what private helpers do with their parameters is their callers' business
         f = Fn(w, PRINTER, f"{classes[0].name}.{meth.name}")
         for r in f.cfg.returns():
             n4 += 1
